@@ -8,6 +8,7 @@ Decided structurally (see DESIGN.md §4 C14):
   D5 R-TERM   arrays handed to a NULL-sentinel consumer are NULL-terminated
   D6 R-WHO    every error record is built with the parser's line number
   D7 R-LOOP   loop classification, definite divergence / skippable equality exit
+  D10 R-GROW  a buffer enlarged on demand (error log) grows by at least the length about to be written
   D9 R-BOUND  the text cursor OrcParser.p is advanced by a constant only over bytes known to be non-NUL
   D8 R-NULL   a parser-state field that a handler frees is overwritten before the handler returns
 """
@@ -197,6 +198,12 @@ def run(ctx):
     # ---- D7: loops -------------------------------------------------------
     lf = list(pfuncs) + [db.func("_strtoll", "orcutils"), db.func("strsplit", "orcutils")]
     loops.classify_and_judge(db, lf, rep, rule="D7-R-LOOP")
+
+    # ---- D10: buffers that grow on demand grow by at least what is about to be written -------------
+    from rules_common import check_guarded_growth
+    n10 = check_guarded_growth(db, list(pfuncs), rep, "D10-GROWTH")
+    if n10 < 1:
+        raise AnalysisBroken("no guarded buffer growth found in orcparse.c (orc_parse_splat_error)")
 
     # ---- D9: the text cursor never steps over the terminating NUL -------------------------------
     # OrcParser.p walks the caller's NUL-terminated text.  Advancing it by a constant k is safe only if the k bytes it
